@@ -935,6 +935,9 @@ func writeEvidence(eng *Engine, pr *propRun, prop, tier, verif string, discharge
 		"an interface holding a typed nil pointer is identified with the nil interface; interface equality is reference equality",
 		"partial correctness on non-panicking paths: goroutines, channels, select and recover are not modelled (a function using them has its heap havocked at that point)",
 		"loops without an invariant are abstracted by havoc of their write set; termination is not proved",
+		"language fact assumed at the head of every range loop over a slice or array: the hidden index is -1 or an index below the length taken before the loop (go/ssa lowering of the range statement)",
+		"language fact assumed for every range loop over a map with a scalar key: each iteration produces an entry that was not produced before; when the iteration ends every entry was produced, provided the body (callees by static write sets) adds no entry to the map (see DESIGN 10.5 for the two cases)",
+		"generated sweep stubs verify methods with a pointer receiver for non-nil receivers only (requires <receiver> != nil)",
 	} {
 		assume[s] = true
 	}
